@@ -2,8 +2,11 @@ package sim
 
 import (
 	"fmt"
+	"os"
+	"path/filepath"
 	"reflect"
 	"sort"
+	"strings"
 
 	pongo2 "github.com/flosch/pongo2/v6"
 )
@@ -55,7 +58,7 @@ func (c05Checker) Meta() CheckerMeta {
 func c05Gen(tp *Tapes) *c05Spec {
 	g := tp.Gen
 	sp := &c05Spec{Prog: GenProgram(g, 5+g.Draw(16))}
-	sp.Loader = []string{"fs", "virt", "http"}[g.Draw(3)]
+	sp.Loader = []string{"fs", "virt", "http", "fs", "virt", "localbase"}[g.Draw(6)]
 	np := 1 + g.Draw(3)
 	for i := 0; i < np; i++ {
 		d := GenCtxDesc(g)
@@ -135,7 +138,9 @@ func dataFingerprint(ctx pongo2.Context) string {
 	return s
 }
 
-func c05DoOp(w *World, sp *c05Spec, set *pongo2.TemplateSet, shared *pongo2.Template, op c05Op, ctx pongo2.Context) *ExecResult {
+// ownCache: the set's cache is private to this call (solo reference), so a template
+// coming out of FromCache is a fresh object the caller still has to configure.
+func c05DoOp(w *World, sp *c05Spec, set *pongo2.TemplateSet, shared *pongo2.Template, op c05Op, ctx pongo2.Context, ownCache bool) *ExecResult {
 	tpl := shared
 	var err error
 	switch op.Kind {
@@ -150,6 +155,14 @@ func c05DoOp(w *World, sp *c05Spec, set *pongo2.TemplateSet, shared *pongo2.Temp
 	}
 	if err != nil {
 		return &ExecResult{Ep: op.Entry, Entry: epNames[op.Entry], Err: "compile: " + err.Error()}
+	}
+	switch op.Kind {
+	case "string-exec", "file-exec":
+		sp.Prog.ApplyTplOptions(tpl) // a fresh, not yet shared object
+	case "cache-exec":
+		if ownCache {
+			sp.Prog.ApplyTplOptions(tpl)
+		} // else: the cached object was configured before the tasks started
 	}
 	return w.Exec(tpl, op.Entry, ctx, sp.Prog.Blocks)
 }
@@ -179,8 +192,42 @@ func (c05Checker) Run(tp *Tapes, opt RunOpt) *Outcome {
 		out.probe("trimblocks_on")
 	}
 
-	set := w.NewProgSet(sp.Prog, "P", sp.Loader)
-	shared, err := set.FromFile(sp.Prog.Main)
+	localRoot := ""
+	if sp.Loader == "localbase" {
+		// the real LocalFilesystemLoader over a real (temporary) directory
+		c11TreeSeq++
+		localRoot = filepath.Join(os.TempDir(), fmt.Sprintf("c05tree-%07d-%07d", os.Getpid()%10000000, c11TreeSeq%10000000))
+		os.RemoveAll(localRoot)
+		if err := os.MkdirAll(localRoot, 0o755); err != nil {
+			out.HarnessErr = err.Error()
+			return out
+		}
+		defer os.RemoveAll(localRoot)
+		for _, k := range sortedKeys(sp.Prog.Files) {
+			if err := os.WriteFile(filepath.Join(localRoot, k), []byte(sp.Prog.Files[k]), 0o644); err != nil {
+				out.HarnessErr = err.Error()
+				return out
+			}
+		}
+		out.probe("local_filesystem_loader")
+	}
+	newSet := func(wld *World) *pongo2.TemplateSet {
+		if localRoot == "" {
+			return wld.NewProgSet(sp.Prog, "P", sp.Loader)
+		}
+		set := pongo2.NewSet("P", wld.MakeLoader(0, LoaderSpec{Kind: "localbase", BaseDir: localRoot}))
+		if !sp.Prog.OptsOnTemplate {
+			set.Options.TrimBlocks = sp.Prog.TrimBlocks
+			set.Options.LStripBlocks = sp.Prog.LStripBlocks
+		}
+		set.Globals["glob"] = "G<P>"
+		return set
+	}
+	set := newSet(w)
+	// the shared template is the set's cached object, so FromCache hits from other tasks
+	// hand out the very template that is being executed
+	shared, err := set.FromCache(sp.Prog.Main)
+	sp.Prog.ApplyTplOptions(shared)
 	if err != nil {
 		out.Discarded = true
 		out.probe("compile_failed")
@@ -229,7 +276,7 @@ func (c05Checker) Run(tp *Tapes, opt RunOpt) *Outcome {
 					ctx = sharedPool[op.Ctx]
 				}
 				w.OpBegin(i)
-				res[i] = c05DoOp(w, sp, set, shared, op, ctx)
+				res[i] = c05DoOp(w, sp, set, shared, op, ctx, false)
 				w.OpEnd(i)
 			}
 		}
@@ -262,7 +309,11 @@ func (c05Checker) Run(tp *Tapes, opt RunOpt) *Outcome {
 					out.HarnessErr = "missing result"
 					return out
 				}
-				out.dig(got.String())
+				if localRoot != "" {
+					out.dig(strings.ReplaceAll(got.String(), localRoot, "$ROOT"))
+				} else {
+					out.dig(got.String())
+				}
 				// fresh world: new set over the same files, fresh compile, no other task
 				rwld := NewWorld([]*DiskSpec{disk})
 				SetCurWorld(rwld)
@@ -270,15 +321,16 @@ func (c05Checker) Run(tp *Tapes, opt RunOpt) *Outcome {
 					f.Task = -1
 					rwld.Plan = append(rwld.Plan, f)
 				}
-				rset := rwld.NewProgSet(sp.Prog, "P", sp.Loader)
-				rtpl, rerr := rset.FromFile(sp.Prog.Main)
+				rset := newSet(rwld)
+				rtpl, rerr := rset.FromCache(sp.Prog.Main) // the same way the shared template was obtained
+				sp.Prog.ApplyTplOptions(rtpl)
 				if rerr != nil {
 					out.HarnessErr = "reference compile failed: " + rerr.Error()
 					SetCurWorld(w)
 					return out
 				}
 				rwld.OpBegin(i)
-				want := c05DoOp(rwld, sp, rset, rtpl, op, rwld.BuildCtx(sp.Pool[op.Ctx]))
+				want := c05DoOp(rwld, sp, rset, rtpl, op, rwld.BuildCtx(sp.Pool[op.Ctx]), true)
 				rwld.OpEnd(i)
 				SetCurWorld(w)
 				if want.Panic != "" && firstLine(want.Panic) == firstLine(got.Panic) {
